@@ -407,9 +407,14 @@ Definition cand_name (st : lstate) (link : option Z) : Z :=
    bisected window of the region list,
        left = bisect.bisect_left(self._regions, cds)            # region < cds: CDSCollection.__lt__
        right = bisect.bisect_right(self._regions, cds, lo=left) # cds < region: Feature.__lt__
-       for region in self._regions[max(0, left - 1):right + 1]:
+       first = max(0, left - 1)
+       candidates = self._regions[first:right + 1]
+       if first > 0 and self._regions[0].crosses_origin():      # repair of finding late_gene_origin_region_unlinked:
+           candidates.insert(0, self._regions[0])               # a region crossing the origin always sorts first
+       for region in candidates:
            if cds.is_contained_by(region): region.add_cds(cds); cds.region = region
    (the gene is not yet a child of any region, so the `other in self` shortcut of CDSCollection.__lt__ is False).
+   link_window: `first` and the slice; link_first: what is put in front of the slice (region 0 or nothing);
    link_hits: the positions (in the region list) of the regions that take the gene, in loop order; cds.region is
    the last of them.
    ==================================================================================== *)
@@ -427,8 +432,14 @@ Definition link_window (regs : list loc) (g : loc) : nat * list loc :=
   let right := bisect_from (fun r => negb (feat_lt g r)) regs left in
   let from := (left - 1)%nat in                (* max(0, left - 1) *)
   (from, firstn (S right - from) (skipn from regs)).
+Definition link_first (regs : list loc) (from : nat) : list loc :=
+  match regs with
+  | r0 :: _ => if Nat.ltb 0 from && bridges r0 then [r0] else []
+  | [] => []
+  end.
 Definition link_hits (regs : list loc) (g : loc) : list nat :=
-  let '(from, window) := link_window regs g in hits_from from window g.
+  let '(from, window) := link_window regs g in
+  hits_from 0 (link_first regs from) g ++ hits_from from window g.
 Definition link_region (regs : list loc) (g : loc) : option nat :=
   match rev (link_hits regs g) with i :: _ => Some i | [] => None end.
 
